@@ -118,10 +118,45 @@ def fam_ctor(case):
         recorded[name] = (a, a.copy())
         return a
     drv.arr = arr
+    # data OBJECTS handed to the constructor (grids, ClimateData): what they
+    # report through their own public queries must not change either
+    supplied = []
+
+    def fingerprint(kind, o):
+        d2 = D.DRIVERS.get(kind)
+        if d2 is None:
+            return []
+        m2 = d2.models("thorough")[0]
+        return [(D.qlabel(q), D.qpattern(q), outcome(d2.call, o, q))
+                for q in d2.queries(m2)
+                if q[0] not in ("set_window", "set_global_window")]
+
+    def hook(kind, o):
+        if type(o).__name__ != drv.name:      # not the object under test
+            supplied.append((kind, o, fingerprint(kind, o)))
+    D.OBJ_HOOK = hook
+
+    def check_supplied(where):
+        for kind, o, fp in supplied:
+            d2 = D.DRIVERS[kind] if kind in D.DRIVERS else None
+            if d2 is None:
+                continue
+            now = fingerprint(kind, o)
+            for (lab, pat, g), (_, _, e) in zip(now, fp):
+                if not same_outcome(g, e, **d2.tol):
+                    k = "%s.%s:changes-supplied-object:%s.%s" % (
+                        drv.name, where, kind, pat)
+                    if not any(v["key"].endswith(":%s.%s" % (kind, pat))
+                               for v in viol):
+                        viol.append(V(k, "%s of the %s object handed to the "
+                                      "constructor changed" % (lab, kind),
+                                      brief(g), brief(e)))
     n = 0
     try:
         drv.last_inputs = {}
         obj = drv.construct(model)
+        D.OBJ_HOOK = None
+        check_supplied("__init__")
         for name, (a, c) in recorded.items():
             n += 1
             if a.shape != c.shape or a.tobytes() != c.tobytes():
@@ -142,7 +177,10 @@ def fam_ctor(case):
                         viol.append(V(k, "the query changed an array "
                                       "supplied by the caller",
                                       a.ravel()[:12], c.ravel()[:12]))
+        check_supplied("queries")
+        n += sum(len(fp) for _, _, fp in supplied)
     finally:
+        D.OBJ_HOOK = None
         del drv.arr
     return {"viol": viol, "evals": max(n, 1), "sig": (dname, mi, "ctor"),
             "states": 1, "transitions": 1, "traces": 1}
